@@ -13,7 +13,7 @@ RULE = ("block 'mono' (enumerated completely, exhaustive for its bounds; thoroug
         "{inc,dec} x start,stop in {None} U every half step from 2 below the smallest to 2 above the largest label x step in "
         "{None,1,2,3,-1,-2}; random blocks: shuffled-numeric and str axes with bounds from the labels (and absent bounds), slices in "
         "any dimension of 1-4-d arrays combined with other index kinds, position slices vs NumPy. "
-        "class = (block, length, kind, direction, where start/stop fall, step); trivial = full slice")
+        "slices under a look-up tolerance (Axis.tol, take(tol=)); position slices also on arrays that remember indexing.by='position' and through isel. class = (block, length, kind, direction, where start/stop fall, step); trivial = full slice")
 ANCHORS = ["indexing.locate_slice", "indexing._locate_slice_strict", "indexing.is_monotonic_equal", "bases.loc", "bases.__getitem__"]
 # entry points the workload calls itself; the other anchors are helpers behind them (counted as evidence only)
 ANCHORS_REQUIRED = ["bases.__getitem__"]
